@@ -344,7 +344,7 @@ class Interp(ExprMixin, BuiltinMixin, MethodMixin):
         a = node.args
         defaults = [self.eval(d, env) for d in a.defaults]
         kwdefaults = {k.arg: self.eval(d, env) for k, d in zip(a.kwonlyargs, a.kw_defaults) if d is not None}
-        closure = env if env.func is not None or env.is_comp else None
+        closure = env if env.func is not None or env.is_comp or env.parent is not None else None
         name = getattr(node, "name", "<lambda>")
         f = FuncV(name, node, closure, env.globals, defaults, kwdefaults, env.globals.get("__module_name__", ""))
         return f
@@ -364,7 +364,9 @@ class Interp(ExprMixin, BuiltinMixin, MethodMixin):
                 continue
             bases.append(v)
         ns = {"__ann_order__": [], "__qualname__": s.name}
-        cenv = Env(ns, None, env.globals)
+        # a class defined inside a function: its methods may refer to the enclosing function's variables
+        nested = env.func is not None or env.parent is not None
+        cenv = Env(ns, env if nested else None, env.globals)
         cenv.func = None
         self.exec_block(s.body, cenv)
         cls = self.make_class(s.name, bases, ns, env.globals.get("__module_name__", ""))
